@@ -71,6 +71,13 @@ def worker(unit, emit):
         for f in (str.lower, str.upper, str.swapcase, str.title):
             if f(x) != x:
                 pairrec(x, xkind, f(x), f.__name__, {})
+        # stretched spellings: a separator between all characters / in wide groups, and long padding -- where a test on the
+        # raw argument (a length limit, a slice) before compact() shows
+        for sep in (' ', '-', '.', ' - '):
+            pairrec(x, xkind, sep.join(x), 'stretched %r' % sep, {})
+            pairrec(x, xkind, sep.join(x[i:i + 4] for i in range(0, len(x), 4)), 'groups of four %r' % sep, {})
+        pairrec(x, xkind, x + ' ' * 80, 'padded right 80', {})
+        pairrec(x, xkind, ' ' * 80 + x, 'padded left 80', {})
         for script in scripts1:
             for s, d in inputs.concretise(x, script, rnd, k=p['k']):
                 pairrec(x, xkind, s, d, {})
